@@ -12,7 +12,8 @@ use sml_rs::{DecodedBytes, ReadParsedError, SmlReader};
 use std::io::{self, ErrorKind, Read};
 
 /// `io::Read` that follows a script: one entry per read() call.
-/// 0 = deliver the next byte (end of data => Ok(0)), 1 = WouldBlock, 2 = Interrupted, 3 = Other error, 4 = end of input now.
+/// 0 = deliver the next byte (end of data => Ok(0)), 1 = WouldBlock, 2 = Interrupted, 3 = Other error, 4 = end of input now,
+/// 5 = TimedOut, 6 = BrokenPipe, 7 = InvalidData (all of them "other" errors for the reader).
 pub struct Faulty<'a> {
     pub data: &'a [u8],
     pub pos: usize,
@@ -41,6 +42,9 @@ impl<'a> Read for Faulty<'a> {
             1 => Err(ErrorKind::WouldBlock.into()),
             2 => Err(ErrorKind::Interrupted.into()),
             3 => Err(ErrorKind::Other.into()),
+            5 => Err(ErrorKind::TimedOut.into()),
+            6 => Err(ErrorKind::BrokenPipe.into()),
+            7 => Err(ErrorKind::InvalidData.into()),
             4 => {
                 self.ended = true;
                 Ok(0)
@@ -95,7 +99,7 @@ impl<'a> Sim<'a> {
             match o {
                 1 => return Obs::WouldBlock,
                 2 => continue,
-                3 => {
+                3 | 5 | 6 | 7 => {
                     let n = self.inflight;
                     self.inflight = 0;
                     self.dec.reset();
@@ -149,7 +153,7 @@ pub extern "C" fn chk_faults(ptr: *const u8, n: usize) -> u32 {
     let script = &x[1..1 + f];
     let data = &x[1 + f..];
     for s in script {
-        assume(*s <= 4);
+        assume(*s <= 7);
     }
     let src = Faulty { data, pos: 0, script, si: 0, ended: false };
     let mut rd = SmlReader::with_static_buffer::<32>().from_reader(src);
@@ -182,7 +186,8 @@ pub extern "C" fn chk_faults(ptr: *const u8, n: usize) -> u32 {
                 cover(111);
             }
             (Some(Err(ReadDecodedError::IoErr(e, k))), Obs::Other(w)) => {
-                if e.kind() != ErrorKind::Other || k != *w {
+                let kd = e.kind();
+                if !(kd == ErrorKind::Other || kd == ErrorKind::TimedOut || kd == ErrorKind::BrokenPipe || kd == ErrorKind::InvalidData) || k != *w {
                     fail(1104);
                 }
                 cover(112);
@@ -409,7 +414,7 @@ pub extern "C" fn chk_e2e(ptr: *const u8, n: usize) -> u32 {
         (0, 0) => e2e(SmlReader::from_slice(s), s, choices),
         (0, 1) => e2e(SmlReader::with_static_buffer::<512>().from_slice(s), s, choices),
         (0, _) => e2e(SmlReader::with_vec_buffer().from_slice(s), s, choices),
-        (1, 0) => e2e(SmlReader::from_iterator(s.iter()), s, choices),
+        (1, 0) => e2e(SmlReader::from_iterator(s.iter().copied().filter(|_| true)), s, choices),
         (1, 1) => e2e(SmlReader::with_static_buffer::<512>().from_iterator(s.iter()), s, choices),
         (1, _) => e2e(SmlReader::with_vec_buffer().from_iterator(s.iter()), s, choices),
         (_, 0) => e2e(SmlReader::from_reader(s), s, choices),
